@@ -179,6 +179,8 @@ var mpuModel = porcupine.Model{
 				return !out.OK, st
 			}
 			return out.OK && out.Parts == st.parts, st
+		case "complete-refused": // by a disk error: no effect on the upload
+			return true, st
 		default: // complete
 			if st.gone {
 				return !out.OK, st
@@ -218,6 +220,7 @@ type history struct {
 	verKey   map[string]string // version id -> bucket/key
 	ids      []string
 	delVer   map[string]bool // version ids some client has started to delete
+	taint    map[string]bool // partitions whose content an injected disk fault made indeterminate
 	recycles []*recycle      // bucket delete+re-create operations (the bucket may be absent while one is in flight)
 }
 
@@ -225,7 +228,7 @@ type recycle struct{ call, ret int64 }
 
 func newHistory() *history {
 	return &history{parts: map[string][]porcupine.Operation{}, desc: map[string][]string{}, bodies: map[string][]byte{"d41d8cd98f00b204e9800998ecf8427e": {}}, withMeta: map[string]bool{},
-		verOf: map[string]string{}, verKey: map[string]string{}, delVer: map[string]bool{}}
+		verOf: map[string]string{}, verKey: map[string]string{}, delVer: map[string]bool{}, taint: map[string]bool{}}
 }
 
 func (h *history) tick() int64 { h.seq++; return h.seq }
@@ -630,6 +633,18 @@ func (r *Run) execLin(ci, oi int, op *Op) {
 			Headers: [][2]string{{"Content-Length", strconv.Itoa(b.Len())}}, Body: b.Bytes()}, op.Faults, r.frag(op))
 		ret := h.tick()
 		r.noPanic(resp, "complete multipart upload")
+		if resp.Status >= 500 && r.me().faulted {
+			// one disk call of this request failed: the complete is refused and
+			// the upload stays as it was - pending, listed, with its parts - for
+			// everybody at every moment (the object's key may have lost its
+			// previous content: the fs backends unlink before they create)
+			h.add("u:"+u.ID, ci, call, ret, mpuIn{Kind: "complete-refused", List: list}, mpuOut{}, fmt.Sprintf("complete %v refused after a disk error", list))
+			h.taint["k:"+u.Bucket+"/"+u.Key] = true
+			r.faultSeen = true
+			r.probe("complete refused after a disk error in a concurrent run")
+			r.logf("c%d#%d complete up=%s %v [%d,%d] -> %s (disk fault)", ci, oi, u.ID, list, call, ret, resp.String())
+			return
+		}
 		if resp.Status >= 500 {
 			r.linFail("lin.mpu", "complete answers a server error", "200 or 4xx", resp.String()+" "+resp.Msg)
 		}
@@ -783,6 +798,10 @@ func (r *Run) afterLin() {
 		}
 		if len(ops) > 90 {
 			r.stats.Porcupine["skipped-too-long"]++
+			continue
+		}
+		if h.taint[p] {
+			r.stats.Porcupine["skipped-faulted-key"]++
 			continue
 		}
 		res := porcupine.CheckOperationsTimeout(m, ops, timeout)
